@@ -119,6 +119,15 @@ func CheckC02(e *fw.Env, l *Lab) {
 			}
 		}
 	}
+	// histories in which the statistics of the route cannot be updated any more (the only failure
+	// the dispatcher swallows): a transfer acknowledged as successful there must still have handed
+	// the whole coin to fee recipients and route
+	if e.Shard == 5%e.Shards {
+		overflowHistoryC01(e, l)
+	}
+	if e.Shard == 6%e.Shards {
+		genesisNearLimitC01(e, l)
+	}
 }
 
 func attachSetup(res *fw.Result, from int, setup any) {
